@@ -50,6 +50,10 @@ func OvPool() []ref.FunSig {
 		mk(26, m.Map(m.Var("k"), a), m.List(a)),
 		mk(27, m.Map(m.Var("k"), m.Num), m.Num),
 		mk(28, m.List(b), m.Str, a),
+		// the most general two-parameter signature, next to ones that share a variable
+		mk(29, m.Str, a, b),
+		mk(30, m.Str, m.List(a), m.List(b)),
+		mk(31, m.Str, m.List(a), m.List(a)),
 	}
 }
 
